@@ -176,16 +176,23 @@ def check_alternating(acc, nseg, seglen, p, mean, var, prop, seed):
         acc.violation("raised", case, f"{type(e).__name__}: {e}", dict(key, exc=type(e).__name__))
 
 
-def check_outliers(acc, n, p, k, size):
+def check_outliers(acc, n, p, k, size, index="range"):
+    from smc import dets
+
     g = gens()
     acc.ev()
-    case = {"gen": "outliers", "n": n, "p": p, "n_outliers": k, "size": size}
+    case = {"gen": "outliers", "n": n, "p": p, "n_outliers": k, "size": size, "index": index}
     key = {"gen": "outliers"}
     try:
-        base = pd.DataFrame(np.arange(n * p, dtype=float).reshape(n, p) / 4.0, columns=[f"var{i}" for i in range(p)])
+        base = pd.DataFrame(np.arange(n * p, dtype=float).reshape(n, p) / 4.0, columns=[f"var{i}" for i in range(p)],
+                            index=dets.make_index(index, n))
         df = base.copy()
         out = g.add_linspace_outliers(df, k, size)
-        if not frame_ok(acc, case, key, out, n, p):
+        if index == "range":
+            if not frame_ok(acc, case, key, out, n, p):
+                return
+        elif not isinstance(out, pd.DataFrame) or out.shape != (n, p) or not out.index.equals(base.index):
+            acc.violation("shape", case, f"output shape {getattr(out, 'shape', None)} / index differ from the input frame's", key)
             return
         diff = out.to_numpy() - base.to_numpy()
         rows = [i for i in range(n) if np.any(diff[i] != 0)]
@@ -289,6 +296,10 @@ def cases(tier, seed):
             for k in range(0, n + 1):
                 for size in (5.0, -2.5):
                     yield ("outliers", n, p, k, size)
+                if n <= 6 and p <= 2:
+                    # "rows" are positions: the frame may carry any index (a slice of generated data, dates, ...)
+                    for ik in ("offset", "step2", "datetime", "int64"):
+                        yield ("outliers", n, p, k, 5.0, ik)
     for w in INVALID:
         yield ("invalid", w)
 
@@ -303,7 +314,7 @@ def shards(tier, seed):
 def bounds(tier, seed):
     return {"changing": "n<=8 (quick)/10, p<=3, seeds (0,1,2,10+VERIF_SEED), all changepoint subsets, 4 parameter shapes", "anomalous": "n<=7/9, all lists of <=2 disjoint anomalies (both orders for n<=4)",
             "alternating": "n_segments<=4, segment_length<=3, p<=3, 4 (mean,variance) pairs, proportions with integral p*prop",
-            "outliers": "n<=8/10, p<=3, n_outliers 0..n, sizes (5, -2.5)", "invalid": INVALID}
+            "outliers": "n<=8/10, p<=3, n_outliers 0..n, sizes (5, -2.5); for n<=6, p<=2 also frames with an offset / stepped / datetime / irregular integer index", "invalid": INVALID}
 
 
 def dispatch(acc, c):
@@ -340,7 +351,7 @@ def replay(case):
     elif g == "alternating":
         check_alternating(acc, case["n_segments"], case["segment_length"], case["p"], case["mean"], case["variance"], case["prop"], case["seed"])
     elif g == "outliers":
-        check_outliers(acc, case["n"], case["p"], case["n_outliers"], case["size"])
+        check_outliers(acc, case["n"], case["p"], case["n_outliers"], case["size"], case.get("index", "range"))
     else:
         check_invalid(acc, case["which"])
     return acc.violations
